@@ -1147,6 +1147,10 @@ class Eval:
         return self.emit_call(n, term, fname, args, kw, recv, target)
 
     def emit_call(self, n, term, fname, args, kw, recv, target=None):
+        if isinstance(target, Func) and isinstance(term, tuple) and term and term[0] == "call" and term[1] == target.qualname:
+            # the event carries the canonical argument list of the call term (keywords that continue the positionals folded in)
+            args = term[2][1:] if recv is not None else term[2]
+            kw = term[3]
         self.emit("call", n, term=term, fname=fname, args=tuple(args), kw=tuple(kw), recv=recv,
                   target=target.qualname if isinstance(target, (Func, Cls)) else None)
         return term
@@ -1195,8 +1199,16 @@ class Eval:
         if isinstance(target, Cls):
             return ("call", "new:" + target.qualname, tuple(args), tuple(sorted(kw)))
         if isinstance(target, Func):
+            # keyword arguments that continue the positional ones in parameter order are the same call as the positional spelling
+            params = list(target.params)
+            if target.cls is not None and not target.is_static and target.parent is None and params:
+                params = params[1:]
+            args, kwd = list(args), dict(kw)
+            if not any(isinstance(a_, tuple) and a_ and a_[0] == "star" for a_ in args) and "**" not in kwd:
+                while len(args) < len(params) and params[len(args)] in kwd:
+                    args.append(kwd.pop(params[len(args)]))
             a = ((recv,) if recv is not None else ()) + tuple(args)
-            return ("call", target.qualname, a, tuple(sorted(kw)))
+            return ("call", target.qualname, a, tuple(sorted(kwd.items())))
         return simplify_call(fname, recv, args, kw)
 
     def set_place(self, holder, new):
